@@ -1,7 +1,6 @@
 package main
 
 import (
-	"context"
 	"encoding/json"
 	"fmt"
 	"math/rand"
@@ -115,7 +114,7 @@ func c05Run(specs []*TableSpec) Res {
 			return Err("start")
 		}
 		out := &c05Result{Conflicts: []c05Conflict{}, Rows: [][]string{}}
-		timeout := time.After(60 * time.Second)
+		timeout := hangAfter(60 * time.Second)
 	loop:
 		for {
 			select {
@@ -147,7 +146,7 @@ func c05Run(specs []*TableSpec) Res {
 		sort.Slice(out.Conflicts, func(i, j int) bool {
 			return fmt.Sprint(out.Conflicts[i].Key) < fmt.Sprint(out.Conflicts[j].Key)
 		})
-		ctx, cancel := context.WithTimeout(context.Background(), 60*time.Second)
+		ctx, cancel := ctxHangAfter(60*time.Second)
 		defer cancel()
 		rch, err := m.SortedRows(ctx, nil)
 		if err != nil {
